@@ -280,7 +280,7 @@ def _load():
     register(Profile("C09", [C09, Ref], [(1, core), (2, rout), (1, rout_b)],
                      "distinct history digest; non-trivial = >=1 routing decision checked (per-router-kind and unequal-queue JSQ/LB decision counters reported)",
                      B(40000, 400000)))
-    samp = profile(preempt=0.0, sched_pre_opts=[False], np_samples=0.15, tdep=0.5, batch=0.5, exact=0.15, n=[1, 2, 2, 3], slot=0.1, ps=0.05)
+    samp = profile(preempt=0.0, sched_pre_opts=[False], np_samples=0.15, sdep=0.3, tdep=0.5, batch=0.5, exact=0.15, n=[1, 2, 2, 3], slot=0.1, ps=0.05)
     register(Profile("C10", [C10, Ref], [(1, core), (3, samp), (1, dict(samp, f_bad=1.0)), (1, dict(kfa, tdep=0.5, batch=0.5))],
                      "distinct history digest; non-trivial = >=3 arrivals on one stream and >=1 completed service audited against its sample "
                      "(F5 sub-profile: one invalid sample planted per run; counters F5:planted/served/raised reported)",
